@@ -33,6 +33,10 @@ pub enum DOp {
     Drop(usize),
     /// drop the container on another thread (sync flavours) / here
     DropContainerElsewhere,
+    /// compare two nodes with every operator (all node values are equal: ties)
+    Compare(u8, u8),
+    /// run a complete priority-first traversal from the node and keep nothing
+    PfsTraverse(u8),
 }
 
 impl DOp {
@@ -51,6 +55,8 @@ impl DOp {
             DOp::TakeFound(u, t) => format!("h.push(n{}.dfs().target(&{}).search().unwrap())", u, t),
             DOp::Drop(i) => format!("drop(h.remove({}))", i),
             DOp::DropContainerElsewhere => "drop the container on another thread".into(),
+            DOp::Compare(u, v) => format!("let _ = n{} < n{}, max(n{}, n{}) ...", u, v, u, v),
+            DOp::PfsTraverse(u) => format!("n{}.pfs().for_each(..).search()", u),
         }
     }
 }
@@ -159,6 +165,8 @@ impl DModel {
             DOp::TakeFound(u, t) => room && u != t && self.all_alive() && self.reachable(u, t),
             DOp::Drop(i) => i < self.handles.len(),
             DOp::DropContainerElsewhere => self.container().is_some(),
+            DOp::Compare(u, v) => self.alive(u) && self.alive(v),
+            DOp::PfsTraverse(u) => self.alive(u) && self.all_alive(),
         }
     }
 }
@@ -188,7 +196,7 @@ impl<F: Fl> DWorld<F> {
             ensure_monitor();
         }
         let reg = Arc::new(Registry::default());
-        let real: Vec<RH<F>> = (0..n).map(|k| RH::Node(F::node(k as K, Val::tracked(default_val(k as K), k as u8, &reg)))).collect();
+        let real: Vec<RH<F>> = (0..n).map(|k| RH::Node(F::node(k as K, Val::tracked(0, k as u8, &reg)))).collect();
         let mut w = DWorld { reg, model: DModel { n, directed: F::DIRECTED, edges: vec![], handles: (0..n as u8).map(MH::Node).collect() }, real };
         for (u, v) in init {
             let (a, b) = (w.node(*u), w.node(*v));
@@ -350,6 +358,17 @@ impl<F: Fl> DWorld<F> {
                 }
                 self.model.handles.remove(c);
             }
+            DOp::Compare(u, v) => {
+                let (a, b) = (self.node(u), self.node(v));
+                let _ = F::node_cmp(&a, &b);
+            }
+            DOp::PfsTraverse(u) => {
+                let a = self.node(u);
+                for kind in [Kind::PfsMin, Kind::PfsMax] {
+                    let cfg = Cfg { kind, transpose: false, target: None, meth: Meth::ForEach, res: ResK::Search };
+                    let _ = F::search(&a, &cfg, &mut |_| true);
+                }
+            }
         }
         Ok(())
     }
@@ -382,7 +401,7 @@ impl<F: Fl> DWorld<F> {
             };
             for n in nodes {
                 let k = F::key(&n);
-                if F::pval(&n) != default_val(k) {
+                if F::pval(&n) != 0 {
                     return bad("handle-unusable", format!("node {} reached through a held handle reports value {}", k, F::pval(&n)));
                 }
                 let _ = (F::deg_out(&n), F::deg_in(&n), F::is_orphan(&n));
@@ -402,6 +421,7 @@ fn ops(n: usize, max_handles: usize) -> Vec<DOp> {
     v.push(DOp::DropContainerElsewhere);
     for k in 0..n {
         v.push(DOp::Clone(k));
+        v.push(DOp::PfsTraverse(k));
         v.push(DOp::Insert(k));
         v.push(DOp::RemoveFromContainer(k));
         v.push(DOp::TakeEdge(k));
@@ -409,6 +429,9 @@ fn ops(n: usize, max_handles: usize) -> Vec<DOp> {
         v.push(DOp::Isolate(k));
         for t in 0..n {
             v.push(DOp::Connect(k, t));
+            if k <= t {
+                v.push(DOp::Compare(k, t));
+            }
             v.push(DOp::Disconnect(k, t));
             if k != t {
                 v.push(DOp::TakePath(k, t));
@@ -479,6 +502,8 @@ fn kind(op: &DOp) -> &'static str {
         DOp::TakeFound(..) => "take-found",
         DOp::Drop(_) => "drop",
         DOp::DropContainerElsewhere => "drop-container-elsewhere",
+        DOp::Compare(..) => "compare",
+        DOp::PfsTraverse(_) => "pfs-traverse",
     }
 }
 
